@@ -143,7 +143,7 @@ func assumeValidTS(sec int64, nanos int32) {
 
 // VerifC04Step: one arbitrary request by a joined participant; exactly one answer with the defined outcome.
 func VerifC04Step() {
-	c04Step(stepShape{mods: vModVikja | vModOdal | vModDagaz, symIDs: true}, 0, kQuadSample)
+	c04Step(stepShape{mods: vModVikja | vModOdal | vModDagaz, symIDs: true, prior: verifnd.Bool()}, 0, kQuadSample)
 }
 
 // VerifC04Dagaz: the ground-plane kinds, finite coordinates within 64 m.
